@@ -2,13 +2,14 @@
 from hypothesis import strategies as st
 
 from ..common import Sub
-from ..e1 import engine
+from ..e1 import engine, gen, oracles, reduce as e1reduce
 from .. import sink
 
 RULE = ("operation sequences (value, error, call, is_computed, set_value, set_error, reset_unsafe, subscribe with well-behaved or raising callbacks; <= 30 ops) "
         "on one future of each of 12 kinds (Future with returning/raising provider, ConstFuture, ErrorFuture, AsyncTask returning/raising/blocking on a batch, "
         "batch with succeeding/failing flush, item of such batches, DebugBatchItem), compared step by step with an explicit three-state reference model; "
-        "non-trivial = the sequence completes the future and then performs at least one further set_* or read, with at least one subscriber; distinct = distinct case JSON")
+        "non-trivial = the sequence completes the future and then performs at least one further set_* or read, with at least one subscriber; distinct = distinct case JSON. "
+        "scheduler-driven: generated programs in which the same uncomputed Future(provider) object sits in >= 2 places of one computation; non-trivial = >= 2 places and the provider ran")
 ASSUMPTIONS = ["error() on a pending lazy Future whose provider raises propagates that exception once (and stores it): the property constrains reports 'from then on'",
                "ConstFuture/ErrorFuture use a sinking hook: subscribers added after completion are never called, which the property allows",
                "after reset_unsafe() only Future(provider) is asked to recompute naturally; other kinds are completed again through set_value/set_error only"]
@@ -40,7 +41,7 @@ def strategy(tier):
         st.sampled_from([["value"], ["error"], ["call"], ["is_computed"]]),
         st.tuples(st.just("set_value"), st.integers(0, 3)).map(list),
         st.tuples(st.just("set_error"), st.integers(0, 3)).map(list),
-        st.tuples(st.just("subscribe"), st.booleans()).map(list),
+        st.tuples(st.just("subscribe"), st.sampled_from([False, True, "oneshot", "oneshot"])).map(list),
     )
     return st.fixed_dictionaries({"kind": st.sampled_from(KINDS), "ops": st.lists(op, min_size=1, max_size=30 if tier == "quick" else 60)})
 
@@ -143,10 +144,15 @@ def check(case, ctx):
     M = {"runs": 0, "ran": False, "subs": 0, "no_natural": natural is None, "completions": 0, "after": 0, "finished_body": False}
     cb_log = []
 
+    cb_of = {}
+    gone = set()       # one-shot subscribers that have already removed themselves
+
     def complete(outcome):
         state[:] = outcome
         M["completions"] += 1
-        return [] if sinking else list(range(M["subs"]))
+        return [] if sinking else [i for i in range(M["subs"]) if i not in gone_before[0]]
+
+    gone_before = [set()]
 
     def run_natural():
         if lazy or not M["ran"]:
@@ -172,6 +178,7 @@ def check(case, ctx):
             cur["step"] = step
             name = op[0]
             expect_cb = []
+            gone_before[0] = set(gone)
             if name in ("value", "call", "error"):
                 was_pending = state[0] == "pending"
                 if was_pending and M["no_natural"]:
@@ -247,8 +254,13 @@ def check(case, ctx):
 
                 def cb(fut, idx=idx, raising=raising):
                     cb_log.append([idx, fut.is_computed(), fut._value, fut._error])
-                    if raising:
+                    if raising == "oneshot":
+                        # a one-shot subscriber removes itself while being notified
+                        fut.on_computed.unsubscribe(cb_of[idx])
+                        gone.add(idx)
+                    elif raising:
                         raise CBErr(idx)
+                cb_of[idx] = cb
                 r, cbs = do(lambda: f.on_computed.subscribe(cb))
             got = sorted(c[0] for c in cbs)
             if got != sorted(expect_cb):
@@ -295,7 +307,8 @@ def check(case, ctx):
     ctx.label("kind=" + kind)
     ctx.label("ops-after-completion", M["after"] > 0)
     ctx.label("reset_unsafe", any(o[0] == "reset_unsafe" for o in case["ops"]))
-    ctx.label("raising-subscriber", any(o[0] == "subscribe" and o[1] for o in case["ops"]))
+    ctx.label("raising-subscriber", any(o[0] == "subscribe" and o[1] is True for o in case["ops"]))
+    ctx.label("one-shot-subscriber", any(o[0] == "subscribe" and o[1] == "oneshot" for o in case["ops"]))
     ctx.nontrivial(case, M["completions"] >= 1 and M["after"] >= 1 and M["subs"] >= 1)
     return viol
 
@@ -306,4 +319,32 @@ def reduce_case(case):
         yield {"kind": case["kind"], "ops": ops[:i] + ops[i + 1:]}
 
 
-SUBS = [Sub("op-sequences", check, strategy=strategy, reduce=reduce_case, examples={"quick": 8000, "thorough": 300000})]
+def sched_strategy(tier):
+    return gen.programs(gen.Cfg(max_tasks=8 if tier == "quick" else 24, sync=True, dag=True, reyield=True, shared_lazy=5, ok_w=8, catch_p=2,
+                                convs=("value", "call"), shapes=("tree", "comb", "diamond", "free", "free")))
+
+
+def check_sched(prog, ctx):
+    """the same lazy Future object awaited in several places of one computation (twice in one yield, by a
+    parent and its child, by a task and a synchronous re-entry): the provider runs once, every consumer
+    sees the one outcome, subscribers are notified once"""
+    env = engine.run_program(prog)
+    viol = oracles.clauses(env, "C10.")
+    r, exp = oracles.reference(prog, env)
+    viol += oracles.compare_with_reference(env, r, exp, "C10.outcome")
+    for k, f in sorted(env.shared_lazy.items()):
+        if f.is_computed() and env.lazy_notes.get(k, 0) != 1:
+            viol.append(("C10.notify", "shared Future %r is computed and its subscriber was notified %d times" % (k, env.lazy_notes.get(k, 0))))
+        if f.is_computed() and env.lazy_runs.get(k, 0) != 1:
+            viol.append(("C10.once", "shared Future %r is computed and its provider ran %d times" % (k, env.lazy_runs.get(k, 0))))
+    st = gen.stats(prog)
+    n = st["leaves"].get("slazy", 0)
+    ctx.label("shared-future-places>=2", n >= 2)
+    ctx.label("shared-future-failing", any(f.is_computed() and f._error is not None for f in env.shared_lazy.values()))
+    ctx.label("outcome=" + env.outcome[0])
+    ctx.nontrivial(prog, n >= 2 and bool(env.lazy_runs))
+    return viol
+
+
+SUBS = [Sub("op-sequences", check, strategy=strategy, reduce=reduce_case, examples={"quick": 8000, "thorough": 300000}),
+        Sub("scheduler-driven", check_sched, strategy=sched_strategy, reduce=e1reduce.candidates, examples={"quick": 3000, "thorough": 100000})]
